@@ -13,6 +13,8 @@ structure UpdPost (p : Prog) (s : State) (m : Nat) (r : State × Bool) : Prop wh
   clean : (s.get m).kind = .memo → (r.1.get m).st = .clean
   subs : (r.1.get m).subs = (s.get m).subs
   ver : r.2 = true → (s.get m).ver < (r.1.get m).ver
+  obsD : ∀ o, s.obs = some o → (s.get o).kind = .eff → (r.1.get o).dirty = true →
+    (s.get o).dirty = true ∨ ∃ y ∈ (s.get o).sources, y ≠ m ∧ (s.get y).ver < (r.1.get y).ver
 
 def UpdOK (p : Prog) (u : State → Nat → State × Bool) (f : Nat) : Prop :=
   ∀ s x, InvR p s → x < f → (s.get x).running = false → (∀ r, (s.get r).running = true → x < r) →
@@ -38,10 +40,10 @@ theorem EvalPost.trans {p : Prog} {s s1 s2 : State} {m : Nat} {L1 L2}
    h2.subs.trans h1.subs, h2.ver.trans h1.ver, by rw [h2.seen, h1.seen, List.append_assoc]⟩
 
 /-- appending a ghost `seen` entry to the running node -/
-theorem appendSeen_inv {p : Prog} {s : State} {m : Nat} (h : InvR p s)
-    (hr : (s.get m).running = true) (e : Nat × Int × Nat) (he : e.2.2 ≤ (s.get e.1).ver) (ev : Ev) :
+theorem appendSeen_inv {p : Prog} {s : State} {m : Nat} (h : InvR p s) (hm : m < s.nodes.length)
+    (hr : (s.get m).kind = .memo → (s.get m).running = true) (e : Nat × Int × Nat)
+    (he : e.2.2 ≤ (s.get e.1).ver) (ev : Ev) :
     InvR p ((s.upd m fun n => { n with seen := n.seen ++ [e] }).emit ev) := by
-  have hm : m < s.nodes.length := s.lt_of_running hr
   generalize hs' : ((s.upd m fun n => { n with seen := n.seen ++ [e] }).emit ev) = s'
   have gm : s'.get m = { s.get m with seen := (s.get m).seen ++ [e] } := by
     subst hs'; rw [State.emit_get, State.get_upd_same _ _ hm]
@@ -81,8 +83,8 @@ theorem appendSeen_inv {p : Prog} {s : State} {m : Nat} (h : InvR p s)
     intro i; by_cases hi : i = m
     · subst hi; rw [gm]
     · rw [go i hi]
-  have nr : ∀ i, (s'.get i).running = false → i ≠ m := by
-    intro i hi e; subst e; rw [runE, hr] at hi; cases hi
+  have nr : ∀ i, (s'.get i).kind = .memo → (s'.get i).running = false → i ≠ m := by
+    intro i hk hi e; subst e; rw [kE] at hk; rw [runE, hr hk] at hi; cases hi
   constructor
   · exact hlen.trans h.len
   · intro i d hd; rw [kE]; exact h.kind i d hd
@@ -96,20 +98,20 @@ theorem appendSeen_inv {p : Prog} {s : State} {m : Nat} (h : InvR p s)
     rw [kE] at hka hkw; rw [stE] at hsa ⊢; rw [subsE] at hw
     exact h.closed a w hka hsa hw hkw
   · intro i hk hri
-    have him := nr i hri
+    have him := nr i hk hri
     rw [go i him] at hk hri ⊢; exact h.srcSeen i hk hri
   · intro i hk hri hv
-    have him := nr i hri
+    have him := nr i hk hri
     rw [go i him] at hk hri hv ⊢; exact h.valNone i hk hri hv
   · intro i hk hri hst ρ hρ
-    have him := nr i hri
+    have him := nr i hk hri
     rw [go i him] at hk hri hst hρ ⊢; exact h.replay i hk hri hst ρ hρ
   · intro i hk hri hst e' he'
-    have him := nr i hri
+    have him := nr i hk hri
     rw [go i him] at hk hri hst he'
     rw [runE, valE]; exact h.srcVal i hk hri hst e' he'
   · intro i hk hri hst hruns
-    have him := nr i hri
+    have him := nr i hk hri
     rw [go i him] at hk hri hst hruns
     obtain ⟨e', he', hne⟩ := h.verDirty i hk hri hst hruns
     exact ⟨e', by rw [go i him]; exact he', by rw [verE]; exact hne⟩
@@ -123,6 +125,7 @@ theorem appendSeen_inv {p : Prog} {s : State} {m : Nat} (h : InvR p s)
       · exact h.verLe w e' he'
       · exact he
     · rw [go w hw] at he'; exact h.verLe w e' he'
+  · intro w a ha; rw [srcE] at ha; rw [kE]; exact h.srcData w a ha
 
 /-- a clean data node holds a value -/
 theorem InvR.clean_val {p : Prog} {s : State} (h : InvR p s) {x : Nat} (hx : x < p.length)
@@ -161,8 +164,8 @@ theorem readNode_spec {p : Prog} {u : State → Nat → State × Bool} {f : Nat}
   have hm : m < s.nodes.length := s.lt_of_running hl.running
   have hxm : x ≠ m := Nat.ne_of_lt hx
   have t := track_post hl.obs hm hx
-  have h1 := track_inv h t hx hl.kind hl.running
-  have f1 := track_frame t hx
+  have h1 := track_inv h t hx (fun _ => hl.running) hkx
+  have f1 := track_frame t hx hl.kind hkx
   have hxp : x < p.length := by rw [← h.len]; omega
   unfold readNode
   generalize track s x = s1 at t h1 f1
@@ -210,7 +213,7 @@ theorem rd_evalPost {p : Prog} {s s2 : State} {m x : Nat} {v : Int} (hl : RunLoc
   have hr2 : (s2.get m).running = true := by rw [rp.running]; exact hl.running
   have hm : m < s2.nodes.length := s2.lt_of_running hr2
   have hxm : x ≠ m := Nat.ne_of_lt hx
-  have hinv := appendSeen_inv rp.inv hr2 (x, v, (s2.get x).ver) (Nat.le_refl _) ev
+  have hinv := appendSeen_inv rp.inv hm (fun _ => hr2) (x, v, (s2.get x).ver) (Nat.le_refl _) ev
   generalize hs' : ((s2.upd m fun n => { n with seen := n.seen ++ [(x, v, (s2.get x).ver)] }).emit ev) = s' at hinv
   have gm : s'.get m = { s2.get m with seen := (s2.get m).seen ++ [(x, v, (s2.get x).ver)] } := by
     subst hs'; rw [State.emit_get, State.get_upd_same _ _ hm]
@@ -241,13 +244,21 @@ theorem rd_evalPost {p : Prog} {s s2 : State} {m x : Nat} {v : Int} (hl : RunLoc
     · rw [go i hi]
   have f2 : Frame s2 s' (m + 1) := by
     refine ⟨hlen, kE, fun i hi => ⟨by rw [stE]; exact hi, valE i⟩, fun i => by rw [verE]; exact Nat.le_refl _,
-      fun i _ => verE i, fun i hi => ?_, ?_⟩
+      fun i _ => verE i, fun i hi => ?_, ?_, ?_, ?_⟩
     · rw [go i (by omega)]; exact ⟨rfl, .inl rfl⟩
     · intro hl2 i hi
       rw [hlog, List.mem_append, List.mem_singleton] at hi
       rcases hi with hi | hi
       · exact hl2 i hi
       · exact hev i hi.symm
+    · intro i hk
+      have him : i ≠ m := by
+        intro e; subst e; rw [rp.kind_m, hl.kind] at hk; cases hk
+      rw [go i him]
+    · intro i hk hd
+      have him : i ≠ m := by
+        intro e; subst e; rw [rp.kind_m, hl.kind] at hk; cases hk
+      rw [go i him] at hd; exact .inl hd
   refine ⟨hinv, ?_, rp.frame.trans f2, fun i => (runE i).trans (rp.running i), ?_, ?_, ?_⟩
   · refine ⟨hobs.trans (rp.obs.trans hl.obs), (kE m).trans (rp.kind_m.trans hl.kind), by rw [runE]; exact hr2,
       ?_, ?_, ?_⟩
